@@ -37,7 +37,7 @@ def make_set(rng, tier):
     prof = gen.profile(
         modules=(1, 6 if big else 4), nodes=(2, 20 if big else 9), scalars=(0, 4), tables=(0, 2),
         notifs=(0, 2), groups=(0, 2), max_arcs=4 if big else 3,
-        features=['traps', 'compliance', 'capabilities'], syntax='trivial',
+        features=['split_imports', 'traps', 'compliance', 'capabilities'], syntax='trivial',
         p_hyphen=rng.choice([0.0, 0.25, 0.6]), p_label_arc=rng.choice([0.0, 0.2, 0.5]),
         p_numeric_root=rng.choice([0.05, 0.15, 0.4]), depth_bias=rng.choice([0.3, 0.7, 0.95]),
         p_cross_parent=rng.choice([0.3, 0.6, 0.9]))
